@@ -136,14 +136,14 @@ __CPROVER_ensures((!g_ret_second && g_ret_index <= g_mask) ==> (g_fences >= 1 &&
 __CPROVER_ensures(g_ret_index <= g_mask + 1)
 ;
 //@loop Tab_do_emplace__unsigned_longRef_x 1
-//@  __CPROVER_assigns(@l5@, @l4@, __CPROVER_object_whole(g_ctl), __CPROVER_object_whole(g_vals), g_mine, g_fences, g_snap_base, g_snap_f, g_snap_in, g_empty_mask, g_have_empty_mask, g_probes, g_cas_ok, g_constructs, g_pub_stores, g_clone_stores, g_size_adds, g_claimed, g_ret_index, g_ret_second, g_ret_set)
-//@  __CPROVER_loop_invariant(g_cas_ok == 0 && g_constructs == 0 && g_pub_stores == 0 && g_clone_stores == 0 && g_size_adds == 0 && !g_mine && !g_ret_set && @l4@ <= g_mask)
+//@  __CPROVER_assigns(@l5:step@, @l4:base_index@, __CPROVER_object_whole(g_ctl), __CPROVER_object_whole(g_vals), g_mine, g_fences, g_snap_base, g_snap_f, g_snap_in, g_empty_mask, g_have_empty_mask, g_probes, g_cas_ok, g_constructs, g_pub_stores, g_clone_stores, g_size_adds, g_claimed, g_ret_index, g_ret_second, g_ret_set)
+//@  __CPROVER_loop_invariant(g_cas_ok == 0 && g_constructs == 0 && g_pub_stores == 0 && g_clone_stores == 0 && g_size_adds == 0 && !g_mine && !g_ret_set && @l4:base_index@ <= g_mask)
 //@  __CPROVER_loop_invariant((g_ctl[g_F] == EMPTY || g_ctl[g_F] == BUSY || g_ctl[g_F] >= 0) && (g_F >= 15 || g_ctl[CLONE(g_F)] == g_ctl[g_F]))
 //@end
 //@loop Tab_do_emplace__unsigned_longRef_x 2
-//@  __CPROVER_assigns(@l8@, g_fences)
-//@  __CPROVER_loop_invariant(@l8@._mask <= 0xFFFF && ((g_snap_in && ((@l8@._mask >> ((g_F - g_snap_base) & g_mask)) & 1)) ==> g_snap_f == @l3@))
-//@  __CPROVER_decreases(@l8@._mask)
+//@  __CPROVER_assigns(@l8:iter@, g_fences)
+//@  __CPROVER_loop_invariant(@l8:iter@._mask <= 0xFFFF && ((g_snap_in && ((@l8:iter@._mask >> ((g_F - g_snap_base) & g_mask)) & 1)) ==> g_snap_f == @l3:checker@))
+//@  __CPROVER_decreases(@l8:iter@._mask)
 //@end
 
 /* find: a returned slot holds an equal key; a key published in F whose probe path up to F's group is full is found */
@@ -156,14 +156,14 @@ __CPROVER_ensures((__CPROVER_return_value._index <= g_mask && __CPROVER_return_v
 __CPROVER_ensures((g_published_path && g_fp * 16 <= g_mask) ==> (__CPROVER_return_value._index <= g_mask))     /* never misses a published key */
 ;
 //@loop Tab_find__unsigned_long__u64R 1
-//@  __CPROVER_assigns(@l4@, @l3@, __CPROVER_object_whole(g_ctl), __CPROVER_object_whole(g_vals), g_fences, g_snap_base, g_snap_f, g_snap_in, g_empty_mask, g_have_empty_mask, g_probes)
-//@  __CPROVER_loop_invariant(@l3@ <= g_mask && @l4@ == 16 * g_probes && g_probes <= 70000)
+//@  __CPROVER_assigns(@l4:step@, @l3:base_index@, __CPROVER_object_whole(g_ctl), __CPROVER_object_whole(g_vals), g_fences, g_snap_base, g_snap_f, g_snap_in, g_empty_mask, g_have_empty_mask, g_probes)
+//@  __CPROVER_loop_invariant(@l3:base_index@ <= g_mask && @l4:step@ == 16 * g_probes && g_probes <= 70000)
 //@  __CPROVER_loop_invariant(g_published_path ==> (g_probes <= g_fp && g_ctl[g_F] == CHK && g_vals[g_F]._object == g_key))
 //@end
 //@loop Tab_find__unsigned_long__u64R 2
-//@  __CPROVER_assigns(@l6@, g_fences)
-//@  __CPROVER_loop_invariant(@l6@._mask <= 0xFFFF && ((g_snap_in && ((@l6@._mask >> ((g_F - g_snap_base) & g_mask)) & 1)) ==> g_snap_f == @l2@))
-//@  __CPROVER_loop_invariant((g_published_path && g_probes == g_fp + 1) ==> (g_snap_in && ((@l6@._mask >> ((g_F - g_snap_base) & g_mask)) & 1) && g_ctl[g_F] == CHK && g_vals[g_F]._object == g_key))
-//@  __CPROVER_decreases(@l6@._mask)
+//@  __CPROVER_assigns(@l6:iter@, g_fences)
+//@  __CPROVER_loop_invariant(@l6:iter@._mask <= 0xFFFF && ((g_snap_in && ((@l6:iter@._mask >> ((g_F - g_snap_base) & g_mask)) & 1)) ==> g_snap_f == @l2:checker@))
+//@  __CPROVER_loop_invariant((g_published_path && g_probes == g_fp + 1) ==> (g_snap_in && ((@l6:iter@._mask >> ((g_F - g_snap_base) & g_mask)) & 1) && g_ctl[g_F] == CHK && g_vals[g_F]._object == g_key))
+//@  __CPROVER_decreases(@l6:iter@._mask)
 //@end
 #endif
